@@ -27,15 +27,22 @@ def run(cx, chk):
     chk.rule("C02.R3", "swap on hit: Update-returning paths swap the caller's value with exactly one node's value exactly once; hits return Update")
     chk.rule("C02.R4", "lookup agreement: contains/peek/peek_mut/get/get_mut consult the same lists")
     chk.rule("C02.R6", "a key is inserted into a list only after it was looked up unsuccessfully in / removed from every other retained list (one copy per key)")
+    chk.rule("C02.R7", "purge empties, and a failed remove has consulted, every retained list (incl. ghost lists, which keep values)")
+    chk.rule("C02.R8", "peek/peek_mut/get/get_mut hand out the value of the node that the lookup with the caller's key found - never another node's")
     chk.rule("C02.R5", "remove returns the hit node's value, moved out exactly once; None on a miss")
     ntrun.report_findings(cx, chk, ("C02.",))
     for cfg, F in cx.cfgs():
         for short, name, trait in PUTS:
             f = composite.cache_method(F, api.CACHES[short], name, trait)
             r3(cx, chk, cfg, F, f)
+        from .lib.report import Relabel
+        for short in ("SegmentedCache", "TwoQueueCache", "AdaptiveCache", "WTinyLFUCache"):
+            # a key that was purged or removed is gone from every retained list (ghost lists keep values: a survivor would be reported again)
+            composite.policy_hygiene(cx, Relabel(chk, {"C02.R7": "C02.R7"}), cfg, F, short, "-", "C02.R7")
         for short, adt in api.CACHES.items():
             r4(cx, chk, cfg, F, short, adt)
             r5(cx, chk, cfg, F, short, adt)
+            r8(cx, chk, cfg, F, short, adt)
         # R6: one list per key (shared with C01.R4): a second copy of a key survives `remove` and keeps answering lookups
         from . import c01
 
@@ -156,6 +163,33 @@ def r4(cx, chk, cfg, F, short, adt):
                           f["span"]["file"], f["span"]["lo"], f["q"], None, cfg)
         else:
             chk.ob("C02.R4", "%s:%s::%s" % (cfg, short, name), "consults %s" % sorted(s))
+
+
+def r8(cx, chk, cfg, F, short, adt):
+    from .lib.routing import View
+    for name in ("peek", "peek_mut", "get", "get_mut"):
+        f = composite.cache_method(F, adt, name)
+        ok = True
+        n = 0
+        for f_, p, w in ntrun.walk(cx, cfg, only=lambda g: g["path"] == f["path"]):
+            rv = p.ret
+            if not (isinstance(rv, tuple) and rv[0] == "agg" and rv[1] == "adt" and rv[2][1] == "Some"):
+                continue
+            nodes = set(t[1][1] for t in subterms(rv) if t[0] == "ref" and t[1][0] == "H" and t[1][2] == ("val",))
+            if not nodes:
+                continue
+            n += 1
+            v = View(p, w)
+            found = set(v.key_hits.values())
+            extra = [x for x in nodes if x not in found]
+            if extra:
+                ok = False
+                chk.violation("C02.R8", "%s::%s|foreign-value" % (short, name), "%s::%s returns a reference to the value of node %s, which is not the node found under the caller's key (%s)" % (
+                    short, name, fmt_val(extra[0])[:60], ", ".join(fmt_val(x)[:40] for x in found) or "no hit"), f["span"]["file"], f["span"]["lo"], f["q"], None, cfg)
+        if ok and n < 1:
+            raise AnalysisError("C02.R8: no path of %s::%s returns a reference into a node (%s): rule would be vacuous" % (short, name, cfg))
+        if ok:
+            chk.ob("C02.R8", "%s:%s::%s" % (cfg, short, name), "the returned reference is the hit node's value on %d Some-paths" % n)
 
 
 def r5(cx, chk, cfg, F, short, adt):
